@@ -882,7 +882,9 @@ class Gen:
                         incoming.append((pb, vtoks))
                         if not p.accept(','): break
                     for pb, vtoks in incoming:
-                        phis.setdefault((pb, bn), []).append((dn, t, vtoks))
+                        lst = phis.setdefault((pb, bn), [])
+                        if not any(x[0] == dn for x in lst):     # a switch may list the same predecessor several times
+                            lst.append((dn, t, vtoks))
         fg.phis = phis
         # pure data moves: an 8-byte integer/double load whose only uses are stores of the value. clang emits these
         # for small memcpys / union copies; the bytes may be a pointer. Keep the temporary pointer-typed so CBMC's
@@ -1726,6 +1728,7 @@ def main():
     ap.add_argument('--no-nsw', dest='nsw', action='store_false', default=True)
     ap.add_argument('--fp-hooks', action='store_true')
     ap.add_argument('--no-devirt', action='store_true')
+    ap.add_argument('--root', action='append', default=[], help='extra reachability root (function called only from C models)')
     ap.add_argument('--list-external', help='write external (undefined) symbol list here')
     ap.add_argument('--list-functions', help='write names of translated functions here')
     opts = ap.parse_args()
@@ -1734,7 +1737,7 @@ def main():
     overrides = set(opts.override)
     for e in opts.entry:
         if e not in mod.funcs: raise SystemExit('entry %s not in module' % e)
-    live = reachable(mod, opts.entry, overrides)
+    live = reachable(mod, list(opts.entry) + list(opts.root), overrides)
     gen = Gen(mod, opts)
     gen.live = live; gen.overrides = overrides
     # string globals for label resolution
